@@ -215,6 +215,17 @@ Corollary consistent_after_sprint : forall k acts c c' evs,
   Consistent E c' /\ wf_contact E c'.
 Proof. intros k acts c c' evs H1 H2 H3 H4. exact (proj2 (after_sprint k acts c c' evs H1 H2 H3 H4)). Qed.
 
+(* every membership change of the sprint is reported: the contact_groups_changed events (and a contact_refreshed,
+   which replaces the membership) add up to the membership afterwards *)
+Corollary sprint_group_events : forall k acts c c' evs,
+  wf_contact E c -> kind_wf k -> Forall (fun fm => mod_wf E (snd fm)) acts ->
+  run_sprint E k acts c = (c', evs) ->
+  group_events_sum evs (c_groups c) = c_groups c'.
+Proof.
+  intros k acts c c' evs H1 H2 H3 H4. rewrite <- replay_groups_sum.
+  destruct (replay_sprint k acts c c' evs H1 H2 H3 H4) as [_ [_ [_ [_ [_ [_ [Hg _]]]]]]]. exact Hg.
+Qed.
+
 End Steps.
 
 (* the premises are satisfiable: a msg resume with a refreshed contact whose stored membership is wrong *)
